@@ -106,6 +106,7 @@ structure J where
   neg : Neg := {}
   nextId : Nat := 1
   alignedSoFar : Bool := true
+  carry : Bytes := []            -- bytes of the next request that were written together with the previous one
   err : Option String := none
   idx : Nat := 0
 
@@ -115,7 +116,16 @@ def stepJ (j : J) (sc : List String × List String) : J :=
   match st with
   | "m" :: hex :: fn :: rest =>
     -- however the transport splits the message (`+`), it is the same message (C08)
-    let bytes := ((hex.splitOn "+").map fun x => (if x == "-" then some [] else bytesOfHex? x).getD []).flatten
+    let own := ((hex.splitOn "+").map fun x => (if x == "-" then some [] else bytesOfHex? x).getD []).flatten
+    -- a step that writes nothing serves what an earlier step left queued; anything else on top of queued bytes is not followed
+    let j := if !j.carry.isEmpty && !own.isEmpty then { j with alignedSoFar := false, carry := [] } else j
+    let all := j.carry ++ own
+    -- one `handle_request` consumes one message: with a valid header, what lies beyond header + declared size stays queued
+    let msgLen : Nat :=
+      if all.length ≥ 12 && decide (validHeader frontendCodes (leVal (all.take 4)) (leVal ((all.drop 4).take 4)) (leVal ((all.drop 8).take 4)))
+      then 12 + leVal ((all.drop 8).take 4) else all.length
+    let bytes := all.take msgLen
+    let j := { j with carry := if j.alignedSoFar then all.drop msgLen else [] }
     let nf := (fn.drop 1).toString.toNat?.getD 0
     let ids := (List.range nf).map fun i => toString (i + j.nextId)
     let h := parseHOut ((kvOf rest "h").getD "ok")
